@@ -4,6 +4,7 @@ package main
 
 import (
 	"fmt"
+	"sort"
 	"go/token"
 	"go/types"
 	"strings"
@@ -125,10 +126,14 @@ func (e *Env) eval(x Expr) *Val {
 			if !ok {
 				evalFail("deref of non-pointer %v", p.T)
 			}
-			return e.tr.load(e.st, p.E(), pt.Elem())
+			tag := p.Tag
+			if tag == "" {
+				tag = "cell"
+			}
+			return e.tr.loadTag(e.st, p.E(), pt.Elem(), tag)
 		case "&":
-			addr, t := e.addrOf(x.X)
-			return mkVal(addr, "Int", types.NewPointer(t))
+			addr, t, tag := e.addrOf(x.X)
+			return &Val{e: addr, Sort: "Int", T: types.NewPointer(t), Tag: tag}
 		}
 	case *Binary:
 		return e.evalBinary(x)
@@ -150,7 +155,7 @@ func (e *Env) eval(x Expr) *Val {
 		switch bt := base.T.Underlying().(type) {
 		case *types.Slice:
 			addr := u.sla(base, idx.E())
-			return e.tr.load(e.st, addr, bt.Elem())
+			return e.tr.loadTag(e.st, addr, bt.Elem(), "elem")
 		case *types.Map:
 			_, mv, _, vs := u.mapComps(bt)
 			return mkVal("(select (select "+e.st.get(u, mv)+" "+base.E()+") "+idx.E()+")", vs, bt.Elem())
@@ -160,7 +165,7 @@ func (e *Env) eval(x Expr) *Val {
 			}
 		case *types.Pointer:
 			if at, ok := bt.Elem().Underlying().(*types.Array); ok {
-				return e.tr.load(e.st, ea(base.E(), idx.E()), at.Elem())
+				return e.tr.loadTag(e.st, ea(base.E(), idx.E()), at.Elem(), "elem")
 			}
 		}
 		evalFail("index on %v", base.T)
@@ -204,7 +209,18 @@ func (e *Env) eval(x Expr) *Val {
 			bs = append(bs, "("+name+" "+s+")")
 		}
 		n.depth++
-		body := n.eval(x.Body)
+		// explicit triggers:  forall x :: triggers(t1, t2) && body
+		var explicit []string
+		bodyExpr := x.Body
+		if b, ok := bodyExpr.(*Binary); ok && b.Op == "&&" {
+			if c, ok := b.X.(*Call); ok && c.Fn == "triggers" {
+				for _, a := range c.Args {
+					explicit = append(explicit, "("+n.eval(a).E()+")")
+				}
+				bodyExpr = b.Y
+			}
+		}
+		body := n.eval(bodyExpr)
 		q := "forall"
 		if !x.Forall {
 			q = "exists"
@@ -214,7 +230,11 @@ func (e *Env) eval(x Expr) *Val {
 			names = append(names, n.vars[p.Name].E())
 		}
 		bodyE := body.E()
-		if pats := inferPatterns(bodyE, names); len(pats) > 0 {
+		pats := explicit
+		if len(pats) == 0 {
+			pats = inferPatterns(bodyE, names)
+		}
+		if len(pats) > 0 {
 			bodyE = "(! " + bodyE
 			for _, p := range pats {
 				bodyE += " :pattern " + p
@@ -391,9 +411,8 @@ func (e *Env) evalSel(x *Sel) *Val {
 	}
 	if pt, ok := base.T.Underlying().(*types.Pointer); ok {
 		path, ft := e.lookupField(pt.Elem(), x.F)
-		addr, cur := e.walkAddr(base.E(), pt.Elem(), path)
-		_ = cur
-		return e.tr.load(e.st, addr, ft)
+		addr, _, tag := e.walkAddr(base.E(), pt.Elem(), path)
+		return e.tr.loadTag(e.st, addr, ft, tag)
 	}
 	if st, _ := structOf(base.T); st != nil {
 		path, _ := e.lookupField(base.T, x.F)
@@ -447,25 +466,28 @@ func findFieldByName(t types.Type, name string, depth int) ([]int, types.Type) {
 	return nil, nil
 }
 
-// walkAddr follows a field index path starting from a struct at addr.
-func (e *Env) walkAddr(addr string, t types.Type, path []int) (string, types.Type) {
+// walkAddr follows a field index path starting from a struct at addr; also returns the partition tag of the final field.
+func (e *Env) walkAddr(addr string, t types.Type, path []int) (string, types.Type, string) {
 	u := e.tr.u
 	cur := t
+	tag := "cell"
 	for _, i := range path {
 		if pt, ok := cur.Underlying().(*types.Pointer); ok {
 			// embedded pointer: load it
-			addr = e.tr.load(e.st, addr, cur).E()
+			addr = e.tr.loadTag(e.st, addr, cur, tag).E()
 			cur = pt.Elem()
 		}
 		st, _ := structOf(cur)
+		sname := u.sortOf(cur)
+		tag = sname[2:] + "_" + sanitize(st.Field(i).Name())
 		addr = u.fa(addr, cur, i)
 		cur = st.Field(i).Type()
 	}
-	return addr, cur
+	return addr, cur, tag
 }
 
-// addrOf computes the address denoted by an lvalue expression.
-func (e *Env) addrOf(x Expr) (string, types.Type) {
+// addrOf computes the address denoted by an lvalue expression, its type and (for leaf cells) its partition tag.
+func (e *Env) addrOf(x Expr) (string, types.Type, string) {
 	switch x := x.(type) {
 	case *Unary:
 		if x.Op == "*" {
@@ -474,7 +496,11 @@ func (e *Env) addrOf(x Expr) (string, types.Type) {
 			if !ok {
 				evalFail("addr of deref of non-pointer")
 			}
-			return p.E(), pt.Elem()
+			tag := p.Tag
+			if tag == "" {
+				tag = "cell"
+			}
+			return p.E(), pt.Elem(), tag
 		}
 	case *Sel:
 		// pointer base?
@@ -496,7 +522,7 @@ func (e *Env) addrOf(x Expr) (string, types.Type) {
 				}
 			}
 		}
-		baddr, bt := e.addrOf(x.X)
+		baddr, bt, _ := e.addrOf(x.X)
 		path, _ := e.lookupField(bt, x.F)
 		return e.walkAddr(baddr, bt, path)
 	case *Index:
@@ -504,19 +530,19 @@ func (e *Env) addrOf(x Expr) (string, types.Type) {
 		idx := e.eval(x.I)
 		switch bt := base.T.Underlying().(type) {
 		case *types.Slice:
-			return e.tr.u.sla(base, idx.E()), bt.Elem()
+			return e.tr.u.sla(base, idx.E()), bt.Elem(), "elem"
 		case *types.Pointer:
 			if at, ok := bt.Elem().Underlying().(*types.Array); ok {
-				return ea(base.E(), idx.E()), at.Elem()
+				return ea(base.E(), idx.E()), at.Elem(), "elem"
 			}
 		}
 	case *Ident:
 		if v, ok := e.vars["&"+x.Name]; ok {
-			return v.E(), v.T
+			return v.E(), v.T, "cell"
 		}
 	}
 	evalFail("not an addressable expression: %#v", x)
-	return "", nil
+	return "", nil, ""
 }
 
 func (e *Env) tryEval(x Expr) (v *Val) {
@@ -592,8 +618,8 @@ func (e *Env) evalCall(x *Call) *Val {
 		}
 		return mkIface(types.NewInterfaceType(nil, nil), fmt.Sprint(u.typeID(v.T)), u.box(v))
 	case "addr":
-		a, t := e.addrOf(x.Args[0])
-		return mkVal(a, "Int", types.NewPointer(t))
+		a, t, tag := e.addrOf(x.Args[0])
+		return &Val{e: a, Sort: "Int", T: types.NewPointer(t), Tag: tag}
 	case "allocated":
 		// allocated(p): p points into an object that existed at function entry
 		al := "ALLOC_0"
@@ -624,7 +650,7 @@ func (e *Env) evalCall(x *Call) *Val {
 	case "elemAddr":
 		return mkVal(ea(arg(0).E(), arg(1).E()), "Int", types.Typ[types.UnsafePointer])
 	case "memStr":
-		return mkVal("(select "+e.st.get(u, "MStr")+" "+arg(0).E()+")", "String", types.Typ[types.String])
+		return mkVal("(select "+e.st.get(u, "MStr$elem")+" "+arg(0).E()+")", "String", types.Typ[types.String])
 	case "obase":
 		return mkVal("(obase "+arg(0).E()+")", "Int", types.Typ[types.UnsafePointer])
 	case "payload":
@@ -743,11 +769,8 @@ func (tr *Translator) callRecDefine(e *Env, d *Define, x *Call) *Val {
 	if !ok {
 		info = &recInfo{}
 		tr.recDefs[d.Name] = info
-		// symbolic state with parameter-named components; discover reads
-		symState := &State{M: map[string]string{}}
-		for _, c := range []string{"MBool", "MInt", "MReal", "MStr", "MPtr", "MSlice", "MIface"} {
-			symState.M[c] = "h!" + c
-		}
+		// symbolic state: every component read is recorded and becomes a leading parameter
+		symState := &State{M: map[string]string{}, sym: map[string]bool{}}
 		n := &Env{tr: tr, vars: map[string]*Val{}, st: symState, old: nil}
 		var ps []string
 		for _, p := range d.Params {
@@ -760,18 +783,18 @@ func (tr *Translator) callRecDefine(e *Env, d *Define, x *Call) *Val {
 		info.pending = true
 		body := n.eval(d.Body).E()
 		info.pending = false
-		// which heap params are used (including by recursive self-calls, which use the same set)
-		for _, c := range []string{"MBool", "MInt", "MReal", "MStr", "MPtr", "MSlice", "MIface"} {
-			if strings.Contains(body, "h!"+c) {
-				info.comps = append(info.comps, c)
-			}
+		for c := range symState.sym {
+			info.comps = append(info.comps, c)
 		}
+		sort.Strings(info.comps)
 		var hp []string
 		var hargs []string
 		for _, c := range info.comps {
 			u.comp2(c)
-			hp = append(hp, fmt.Sprintf("(h!%s %s)", c, baseCompSort[c]))
-			hargs = append(hargs, "h!"+c)
+			hp = append(hp, fmt.Sprintf("(|h!%s| %s)", c, u.compSort[c]))
+			hargs = append(hargs, "|h!"+c+"|")
+			body = strings.ReplaceAll(body, "h!"+c+" ", "|h!"+c+"| ")
+			body = strings.ReplaceAll(body, "h!"+c+")", "|h!"+c+"|)")
 		}
 		// patch self-calls: placeholder "(REC!name " -> "(name h!.. "
 		self := "(" + d.Name
